@@ -18,10 +18,10 @@ from ..common import Ctx, pmap, jhash
 from ..tlc import MachineryError, read_emitted, run_tlc, workdir
 from .. import matlib
 
-FORMULAS = {1: "a", 2: "a + A", 3: "A:b", 4: "b ~ a", 5: "b ~ A | a", 6: "C(A)", 7: "b + hashed(A, levels=3)", 8: "a ~ 0 | A", 9: "a | 0 + b"}
+FORMULAS = {1: "a", 2: "a + A", 3: "A:b", 4: "b ~ a", 5: "b ~ A | a", 6: "C(A)", 7: "b + hashed(A, levels=3)", 8: "a ~ 0 | A", 9: "a | 0 + b", 17: "b + C(L)"}
 OPAQUE = {7}
 INDEX_KINDS = ["default", "strings", "unsorted", "nonunique"]
-PATHS = ["sugar", "formula", "spec", "spec_override", "materializer"]
+PATHS = ["sugar", "formula", "spec", "spec_override", "materializer", "narwhals"]
 OUTPUTS = ["pandas", "numpy", "sparse"]
 THOROUGH = False
 
@@ -55,15 +55,28 @@ def build(formula, df, path, output, na, drop):
     from formulaic import Formula, ModelSpec, model_matrix
     from formulaic.materializers import PandasMaterializer
 
+    if "C(L)" in formula:       # a factor whose values are an array of strings of the caller's context
+        import numpy
+
+        return _build(formula, df, path, output, na, drop, {"L": (numpy.array(df["A"].tolist(), dtype=object) if df["A"].isnull().any() else numpy.array(df["A"].tolist()))})
+    return _build(formula, df, path, output, na, drop, {})
+
+
+def _build(formula, df, path, output, na, drop, context):
+    from formulaic import Formula, ModelSpec, model_matrix
+    from formulaic.materializers import PandasMaterializer
+
     if path == "sugar":
-        return model_matrix(formula, df, na_action=na, output=output, drop_rows=drop, context={})
+        return model_matrix(formula, df, na_action=na, output=output, drop_rows=drop, context=context)
     if path == "formula":
-        return Formula(formula).get_model_matrix(df, na_action=na, output=output, drop_rows=drop, context={})
+        return Formula(formula).get_model_matrix(df, na_action=na, output=output, drop_rows=drop, context=context)
     if path == "spec":
-        return ModelSpec.from_spec(Formula(formula), na_action=na, output=output).get_model_matrix(df, drop_rows=drop, context={})
+        return ModelSpec.from_spec(Formula(formula), na_action=na, output=output).get_model_matrix(df, drop_rows=drop, context=context)
     if path == "spec_override":
-        return ModelSpec.from_spec(Formula(formula)).get_model_matrix(df, drop_rows=drop, context={}, na_action=na, output=output)
-    return PandasMaterializer(df, context={}).get_model_matrix(Formula(formula), drop_rows=drop, na_action=na, output=output)
+        return ModelSpec.from_spec(Formula(formula)).get_model_matrix(df, drop_rows=drop, context=context, na_action=na, output=output)
+    if path == "narwhals":       # the option override that sends a pandas frame through the narwhals materializer
+        return model_matrix(formula, df, na_action=na, output=output, drop_rows=drop, context=context, materializer="narwhals")
+    return PandasMaterializer(df, context=context).get_model_matrix(Formula(formula), drop_rows=drop, na_action=na, output=output)
 
 
 def one(case, index_kind, path, output):
@@ -111,12 +124,12 @@ def one(case, index_kind, path, output):
 
 def replay_case(case):
     h = int(jhash([case["fid"], case["nulls"], case["na"], case["drop0"]])[:8], 16)
-    combos = [(INDEX_KINDS[h % 4], PATHS[(h // 4) % 5], OUTPUTS[(h // 20) % 3])]
+    combos = [(INDEX_KINDS[h % 4], PATHS[(h // 4) % len(PATHS)], OUTPUTS[(h // 20) % 3])]
     if THOROUGH:
-        combos += [(INDEX_KINDS[(h + 1) % 4], PATHS[(h // 4 + 2) % 5], OUTPUTS[(h // 20 + 1) % 3]),
-                   (INDEX_KINDS[(h + 3) % 4], PATHS[(h // 4 + 3) % 5], "pandas")]
+        combos += [(INDEX_KINDS[(h + 1) % 4], PATHS[(h // 4 + 2) % len(PATHS)], OUTPUTS[(h // 20 + 1) % 3]),
+                   (INDEX_KINDS[(h + 3) % 4], PATHS[(h // 4 + 3) % len(PATHS)], "pandas")]
     if (case["nulls"]["a"] or case["nulls"]["A"]) and case["na"] == "drop":
-        combos.append(("nonunique", PATHS[(h // 7) % 5], "pandas"))
+        combos.append(("nonunique", PATHS[(h // 7) % len(PATHS)], "pandas"))
     out = []
     for c in dict.fromkeys(combos):
         out += one(case, *c)
@@ -126,7 +139,7 @@ def replay_case(case):
 def run(ctx: Ctx) -> None:
     global THOROUGH
     THOROUGH = not ctx.quick
-    ctx.rule = ("every null pattern with <= MaxNulls nulls per column over (a, b, A) of a 4-row frame x 9 formulas (one-sided, two-sided, multi-part, "
+    ctx.rule = ("every null pattern with <= MaxNulls nulls per column over (a, b, A) of a 4-row frame x 10 formulas (one-sided, two-sided, multi-part, context-held string array, "
                 "empty part, C(), hashed()) x {drop, raise, ignore} x caller sets {{}, {0}, {1,3}}; index kind, entry point and output cycled "
                 "by case; non-trivial = >= 1 null in an evaluated column and >= 1 kept row")
     ctx.trusted = ["gamma/alpha of the materializer family", "TLC"]
